@@ -141,7 +141,16 @@ def run_check(pid, tier, seed, replay):
     bad_ax = {t: [a for a in ax if a not in ALLOWED_AXIOMS] for t, ax in axioms.items()}
     bad_ax = {t: a for t, a in bad_ax.items() if a}
     forbidden = grep_forbidden()
-    missing = [t for t in P.get("theorems", []) if t not in axioms]
+    expected = []
+    for mod in modules:
+        try:
+            src = open(LEAN + "/" + mod.replace(".", "/") + ".lean").read()
+            expected += re.findall(r"^#print axioms (\S+)", src, re.M)
+        except OSError:
+            pass
+    if not obligations:
+        obligations = expected
+    missing = [t for t in expected if t not in axioms]
     proof_ok = rc_b == 0 and rc_a == 0 and not bad_ax and not forbidden and not missing
     discharged = len([t for t in obligations if t in axioms and t not in bad_ax]) if rc_b == 0 else 0
     broken = []
